@@ -84,6 +84,18 @@ fn check_header(hdr: &mut [u8; 100], c: i32) -> Result<(), Fail> {
     }
 }
 
+/// The verdict on a header's type code does not depend on the other header fields (version, length, box).
+fn check_header_variants(c: i32) -> Result<(), Fail> {
+    for (ver, len) in [(1000i32, 50i32), (1000i32.swap_bytes(), 50), (0, 0), (-1, i32::MAX), (1001, 1 << 24), (0x03e8_0000, -50)] {
+        let mut hdr: [u8; 100] = refcodec::header_bytes(len, 1, &[F::of(1.5); 8]).try_into().unwrap();
+        hdr[28..32].copy_from_slice(&ver.to_le_bytes());
+        if let Err(f) = check_header(&mut hdr, c) {
+            return Err(Fail::new(&f.key, format!("(header version field {:#x}, length field {}) {}", ver, len, f.msg)));
+        }
+    }
+    Ok(())
+}
+
 /// Record content carrying code c through `Shape::read_from`.
 fn check_record(contents: &BTreeMap<i32, Vec<u8>>, scratch: &mut Vec<u8>, c: i32) -> Result<(), Fail> {
     let (bytes, len): (&[u8], i32) = match contents.get(&c) {
@@ -204,6 +216,7 @@ fn check_all_paths(c: i32) -> Result<(), Fail> {
     let mut scratch = vec![0u8; 20];
     check_record(&contents, &mut scratch, c)?;
     check_bare_record(c)?;
+    check_header_variants(c)?;
     check_reader(c)
 }
 
@@ -311,8 +324,8 @@ impl SubCheck for CodeTable {
         // ShapeReader path on every interesting code (whole-file route)
         if rep.violation.is_none() {
             for &c in &interesting {
-                rep.inner_evaluations += 1;
-                if let Err(f) = check_reader(c) {
+                rep.inner_evaluations += 7;
+                if let Err(f) = check_reader(c).and_then(|_| check_header_variants(c)) {
                     rep.violation = Some(Violation {
                         key: f.key,
                         msg: f.msg,
